@@ -109,8 +109,8 @@ func init() {
 	})
 	addCheck(&CheckSpec{
 		Property: "C07", Level: "exploration",
-		Rule:   "transport monitor on every Publish of the requests and core scenarios: results/models/collections/event payloads that are nil, nested, need escaping or cannot be marshalled; every meta combination on HTTP and non-HTTP requests; marshal failures and publish errors as injected faults.",
+		Rule:   "transport monitor on every Publish of the requests, core, events, queryevent, storecoh, qsub and legacy scenarios: results/models/collections/event payloads that are nil, nested, need escaping or cannot be marshalled; every meta combination on HTTP and non-HTTP requests; marshal failures and publish errors as injected faults.",
 		Oracle: "independent validator written from the RES protocol text: subject is a publishable NATS subject of a documented form (reply inbox handed out by the peer, event.<rid>.<name>, system.reset, system.tokenReset, conn.<cid>.token); payload has the documented shape for its kind (response with exactly one of result/resource/error, error with string code and message, meta only for HTTP requests, pre-response timeout:\"<ms>\", per-event fields).",
-		Scen:   []ScenBudget{{"requests", 5000, 300000}, {"core", 2000, 150000}, {"events", 2000, 150000}},
+		Scen:   []ScenBudget{{"requests", 5000, 300000}, {"core", 2000, 150000}, {"events", 2000, 150000}, {"queryevent", 1000, 60000}, {"storecoh", 600, 30000}, {"qsub", 400, 20000}, {"legacy", 400, 20000}},
 	})
 }
